@@ -162,9 +162,19 @@ def extract(
         graph = graph_like
     values = ir.convenience.create_value_mapping(graph, include_subgraphs=False)
     is_graph_view = isinstance(graph_like, ir.GraphView)
-    for val in itertools.chain(inputs, outputs):
+    # Values of an enclosing graph that a node of this graph reads directly are legitimate
+    # boundary inputs: they are what has to be cut to bound a region of a nested graph, and
+    # they are accepted when given by name (create_value_mapping lists them).
+    captured_inputs = {
+        id(node_input)
+        for node in graph
+        for node_input in node.inputs
+        if node_input is not None and node_input.graph is not graph
+    }
+    for position, val in enumerate(itertools.chain(inputs, outputs)):
         if isinstance(val, ir.Value):
-            if not is_graph_view and val.graph is not graph:
+            is_captured_input = position < len(inputs) and id(val) in captured_inputs
+            if not is_graph_view and val.graph is not graph and not is_captured_input:
                 graph_name = graph.name if graph.name is not None else "unnamed graph"
                 raise ValueError(
                     f"Value '{val}' does not belong to the given "
